@@ -181,36 +181,7 @@ def check(rep, an, tier):
                                   construct=ev.text(), entry=entry, config=label, msg=f"depends on {sorted(stale)}")
             R.rule_purity(rep, res, entry)
             rebinds(rep, res, entry, label)
-    # register_bounds: each bound iff given
-    for lbg, ubg in ((True, True), (True, False), (False, True)):
-        kw = dict(lb=arr("lb", S("SRC"), U_INT) if lbg else none(), ub=arr("ub", S("SRC"), U_INT) if ubg else none())
-        label = f"lb={'given' if lbg else None},ub={'given' if ubg else None}"
-        res = an.run(f"{EST}.register_bounds", kws=kw, self_fields=dict(fields), config=label)
-        entry = "ReceptorEstimator.register_bounds"
-        stores_ = res.events("self_store")
-        resets = {a_ for a_ in {ev.d["attr"] for ev in stores_} if a_.startswith("_") and a_ not in fields
-                  and all(not ev.d["val"].flat().data for ev in stores_ if ev.d["attr"] == a_)}       # cache attributes set to a constant
-        written = {ev.d["attr"] for ev in stores_} - resets
-        want = ({"lb"} if lbg else set()) | ({"ub"} if ubg else set())
-        rep.check("R-EFFECT", "register_bounds writes a bound iff it is given", written == want, where=res.fn.loc(),
-                  construct=f"write set of register_bounds [{label}]", entry=entry, config=label,
-                  msg=f"writes {sorted(written)} but only {sorted(want)} was given: the bound that was not passed is silently reset")
-        for ev in res.events("self_store"):
-            if ev.d["attr"] in resets:
-                continue
-            v = ev.d["val"].flat()
-            from ..values import plain_dep
-            okp, how = plain_dep(v.data, ev.d["attr"])
-            rep.check("R-FLOW", f"self.{ev.d['attr']} ← the given {ev.d['attr']}", okp, where=ev.loc, construct=ev.text(),
-                      entry=entry, config=label,
-                      msg=(f"the stored bound is a clamped / rounded image of the given one ({', '.join(how)})" if how else
-                           "the stored bound does not depend on the given one"))
-            old_ = sorted(o for o in v.data if o.split("|")[0] in ("self.lb", "self.ub"))
-            rep.check("R-NOFLOW", f"the registered {ev.d['attr']} does not depend on the previously registered bounds", not old_, where=ev.loc,
-                      construct=ev.text(), entry=entry, config=label,
-                      msg=f"the stored bound is computed from {old_} — the bounds registered EARLIER: what is stored (and every later answer) "
-                          f"depends on the registration history and on the order in which lb and ub are registered")
-        rebinds(rep, res, entry, label)
+    register_bounds_rule(rep, an, fields)
     # ------------------------------------------------------------ fits: write only in internal mode
     bsv = lsq_inputs(bs=1)["batch_size"]
     fit_kws = {
@@ -224,10 +195,15 @@ def check(rep, an, tier):
     for name, want in FITS.items():
         if name not in methods:
             raise R.AnalysisError(f"anchor lost: {CLS}.{name}")
-        for internal in (False, True):
+        variants = [(False, None), (True, None)]
+        if name == "minimize_variance":
+            variants += [(False, "Epsilon given"), (True, "Epsilon given")]      # an explicit variance model is an argument, not a registration
+        for internal, extra in variants:
             kw = dict(fit_kws[name])
             kw["B"] = none() if internal else B_()
-            label = f"internal={internal}"
+            label = f"internal={internal}" + (f",{extra}" if extra else "")
+            if extra == "Epsilon given":
+                kw["Epsilon"] = arr("Epsilon", S("F", "SRC"), {"c": 2, "s": -2}, sign="NONNEG")
             res = an.run(f"{EST}.{name}", kws=kw, self_fields=dict(fields), config=label)
             entry = f"ReceptorEstimator.{name}"
             all_written = {ev.d["attr"] for ev in res.events("self_store")}
@@ -339,3 +315,39 @@ def registration_writes(an):
         out[name] = w or set()
     an._reg_writes = out
     return out
+
+
+def register_bounds_rule(rep, an, fields=None):
+    """register_bounds writes a bound iff it is given, stores the given value itself, and independently of the bounds registered before.
+    Shared with the properties whose statements speak of the registered bounds (C03, C04, C06, C08–C11, C13)."""
+    if fields is None:
+        fields = estimator_fields(K="vec", baseline="vec")
+    for lbg, ubg in ((True, True), (True, False), (False, True)):
+        kw = dict(lb=arr("lb", S("SRC"), U_INT) if lbg else none(), ub=arr("ub", S("SRC"), U_INT) if ubg else none())
+        label = f"lb={'given' if lbg else None},ub={'given' if ubg else None}"
+        res = an.run(f"{EST}.register_bounds", kws=kw, self_fields=dict(fields), config=label)
+        entry = "ReceptorEstimator.register_bounds"
+        stores_ = res.events("self_store")
+        resets = {a_ for a_ in {ev.d["attr"] for ev in stores_} if a_.startswith("_") and a_ not in fields
+                  and all(not ev.d["val"].flat().data for ev in stores_ if ev.d["attr"] == a_)}       # cache attributes set to a constant
+        written = {ev.d["attr"] for ev in stores_} - resets
+        want = ({"lb"} if lbg else set()) | ({"ub"} if ubg else set())
+        rep.check("R-EFFECT", "register_bounds writes a bound iff it is given", written == want, where=res.fn.loc(),
+                  construct=f"write set of register_bounds [{label}]", entry=entry, config=label,
+                  msg=f"writes {sorted(written)} but only {sorted(want)} was given: the bound that was not passed is silently reset")
+        for ev in res.events("self_store"):
+            if ev.d["attr"] in resets:
+                continue
+            v = ev.d["val"].flat()
+            from ..values import plain_dep
+            okp, how = plain_dep(v.data, ev.d["attr"])
+            rep.check("R-FLOW", f"self.{ev.d['attr']} ← the given {ev.d['attr']}", okp, where=ev.loc, construct=ev.text(),
+                      entry=entry, config=label,
+                      msg=(f"the stored bound is a clamped / rounded image of the given one ({', '.join(how)})" if how else
+                           "the stored bound does not depend on the given one"))
+            old_ = sorted(o for o in v.data if o.split("|")[0] in ("self.lb", "self.ub"))
+            rep.check("R-NOFLOW", f"the registered {ev.d['attr']} does not depend on the previously registered bounds", not old_, where=ev.loc,
+                      construct=ev.text(), entry=entry, config=label,
+                      msg=f"the stored bound is computed from {old_} — the bounds registered EARLIER: what is stored (and every later answer) "
+                          f"depends on the registration history and on the order in which lb and ub are registered")
+        rebinds(rep, res, entry, label)
